@@ -69,24 +69,6 @@ pub fn reference(ops: &[Op]) -> Refs {
     Refs { refs, micro }
 }
 
-/// Is the slot discipline of `ops` satisfiable (every referenced slot was created earlier)?
-pub fn well_formed(ops: &[Op]) -> bool {
-    let (mut n, mut e) = (0usize, 0usize);
-    for op in ops {
-        let (nn, ne) = op.needs();
-        if n < nn || e < ne {
-            return false;
-        }
-        match op {
-            Op::CreateNode(_) | Op::CreateNodeProps => n += 1,
-            Op::BatchCreate(k) => n += *k as usize,
-            Op::CreateEdge(..) | Op::CreateEdgeProps(..) => e += 1,
-            _ => {}
-        }
-    }
-    true
-}
-
 #[derive(Clone)]
 pub struct DbImage {
     pub image: Image,
@@ -279,8 +261,8 @@ fn log_shape(img: &Image) -> (&'static str, &'static str) {
             continue;
         }
         match b[s + 4] {
-            8 | 9 => pending = false,
-            10 => {}
+            // TxCommit / TxAbort / Checkpoint markers end the run of records a later commit marker would adopt
+            8 | 9 | 10 => pending = false,
             _ => pending = true,
         }
     }
@@ -341,6 +323,8 @@ pub fn eval_image(work: &Path, mode: Mode, ops: &[Op], refs: &Refs, im: &DbImage
                 let mut sig = base_sig("below-durable-floor");
                 sig.push(("floor-source".into(), im.floor_source.into()));
                 sig.push(("log-tail".into(), tail.into()));
+                // was wal_checkpoint() called in this history (a Checkpoint marker precedes or ends the log)?
+                sig.push(("checkpoint-op-in-history".into(), if ops.iter().any(|o| matches!(o, Op::Checkpoint)) { "yes" } else { "no" }.into()));
                 out.violations.push(mk(
                     sig,
                     format!(
